@@ -1,11 +1,18 @@
 import PytmeModel.Model.C09
 import PytmeModel.Proofs.C09
+import PytmeModel.Proofs.C09Cif
+import PytmeModel.Proofs.C09Reuse
 
 /-! # C09 — atomic structures round-trip through PDB and mmCIF and the two formats agree
 
 Statements are about the model of `Model/C09.lean`, which the harness compares with the real
 `Structure.to_file` / `Structure.from_file` on every run (file text and typed tables).  Numbers are
-validated decimal text (`Dec`); CPython's float ↔ decimal conversions stay in the harness. -/
+validated decimal text (`Dec`); CPython's float ↔ decimal conversions stay in the harness.
+
+Main statements: `pdb_roundtrip` (PDB, whole file), `cif_roundtrip` (mmCIF, whole file, through the block
+splitter; `parse_written_loop` is the general statement about the file-level reader), `reuse_when` /
+`reuse_row_unique` / `cif_reuse_roundtrip` / `cif_cif_roundtrip` (the writer re-using the records of the
+original mmCIF file), `cross_format_files`, `roundtrip_chains`, `filter_exact`. -/
 namespace Pm.C09
 
 /-! ## the column table (extracted from the source on every run and compared with these constants) -/
@@ -605,14 +612,47 @@ theorem loadCifTable_readBack (as : List Atom) (h : ∀ a ∈ as, WfCif a) :
   rw [zipRaw_map]
   exact convert_rawCif as h
 
-/-- **mmCIF round trip, everything but the block splitter.**  For atoms whose text fields contain
+/-- every value `_write_mmcif` collects for well-formed atoms survives the loop syntax -/
+theorem cifColumns_tokOk (as : List Atom) (h : ∀ a ∈ as, WfCif a) :
+    ∀ c ∈ (cifColumns as).map (·.2), ∀ v ∈ c, TokOk v := by
+  have hcols : (cifColumns as).map (·.2) = (List.range 21).map (fun j => nthCol (as.map cifRow) j) := by
+    unfold cifColumns; rw [List.map_map]; rfl
+  rw [hcols]
+  intro c hc v hv
+  obtain ⟨j, hj, rfl⟩ := List.mem_map.mp hc
+  simp only [nthCol, List.map_map, List.mem_map, Function.comp] at hv
+  obtain ⟨a, ha, rfl⟩ := hv
+  have w := h a ha
+  have hch : TokOk (a.chain.take 1) :=
+    ⟨fun c hc => w.chain.1.1 c (List.mem_of_mem_take hc), fun hm => w.chain.1.2 (List.mem_of_mem_take hm)⟩
+  have hint : ∀ i : Int, TokOk (showInt i) := fun i => ⟨showInt_clean i, by
+    unfold showInt; split
+    · intro hm; rcases List.mem_cons.mp hm with e | hm
+      · exact absurd e (by decide)
+      · obtain ⟨d, hd, e⟩ := showNat_digits _ _ hm; revert e; interval_cases d <;> decide
+    · intro hm; obtain ⟨d, hd, e⟩ := showNat_digits _ _ hm; revert e; interval_cases d <;> decide⟩
+  have hdec : ∀ d : Dec, DecOk d → TokOk (showDec d) := fun d hd => ⟨showDec_clean d hd, by
+    unfold showDec
+    simp only [List.mem_append, List.mem_map, not_or]
+    refine ⟨⟨⟨by split <;> simp, ?_⟩, by simp⟩, ?_⟩
+    · intro hm; obtain ⟨k, hk, e⟩ := showNat_digits _ _ hm; revert e; interval_cases k <;> decide
+    · rintro ⟨x, hx, e⟩; have := hd x hx; revert e; interval_cases x <;> decide⟩
+  have h1 : TokOk ['1'] := by decide
+  simp only [List.mem_range] at hj
+  interval_cases j <;> simp only [cifRow, List.getD_eq_getElem?_getD, List.getElem?_cons_zero,
+    List.getElem?_cons_succ, Option.getD_some] <;>
+    first | exact w.record | exact w.name | exact w.alt | exact w.resName | exact w.ins | exact w.elem
+          | exact w.charge | exact hch | exact hint _ | exact hdec _ w.x | exact hdec _ w.y
+          | exact hdec _ w.z | exact hdec _ w.occ | exact hdec _ w.b | exact h1
+
+/-- **mmCIF round trip, row level** (superseded by `cif_roundtrip` below, which is the full statement
+`(writeCif none as).bind loadCif = some (as.map normCif)` through the block splitter; kept as the row-level
+corollary).  For atoms whose text fields contain
 no white space and no double quote: (1) every line of the written `atom_site` loop tokenises into
 exactly the 21 values of one atom (empty ↦ "."), so no row is ever merged with its neighbour and no
 column shifts; (2) typing that table returns the atoms in order, every named field preserved up to
-"" ≡ ".".  *Not* proved (validated against the real parser on every run instead): that
-`_consolidate_strings` / `_split_in_blocks` / `_loop_block_to_dict` hand exactly these lines and
-the 21 names to (1) — the full statement would be
-`loadCif (writeCif none as) = some (as.map normCif)`. -/
+"" ≡ ".".  That `_consolidate_strings` / `_split_in_blocks` / `_loop_block_to_dict` hand exactly these
+lines and the 21 names to (1) is `parseCif_writeLoop` (Proofs/C09Cif.lean), used by `cif_roundtrip`. -/
 theorem cif_roundtrip_partial (as : List Atom) (h : ∀ a ∈ as, WfCif a) :
     (∀ line ∈ loopRows ((cifColumns as).map (·.2)),
         ∃ i, i < as.length ∧ splitLine (removeDq line) = (cifRow (as.getD i default)).map tok) ∧
@@ -620,34 +660,7 @@ theorem cif_roundtrip_partial (as : List Atom) (h : ∀ a ∈ as, WfCif a) :
     loadCifTable (readBack as) = some (as.map normCif) := by
   have hcols : (cifColumns as).map (·.2) = (List.range 21).map (fun j => nthCol (as.map cifRow) j) := by
     unfold cifColumns; rw [List.map_map]; rfl
-  have hv : ∀ c ∈ (cifColumns as).map (·.2), ∀ v ∈ c, TokOk v := by
-    rw [hcols]
-    intro c hc v hv
-    obtain ⟨j, hj, rfl⟩ := List.mem_map.mp hc
-    simp only [nthCol, List.map_map, List.mem_map, Function.comp] at hv
-    obtain ⟨a, ha, rfl⟩ := hv
-    have w := h a ha
-    have hch : TokOk (a.chain.take 1) :=
-      ⟨fun c hc => w.chain.1.1 c (List.mem_of_mem_take hc), fun hm => w.chain.1.2 (List.mem_of_mem_take hm)⟩
-    have hint : ∀ i : Int, TokOk (showInt i) := fun i => ⟨showInt_clean i, by
-      unfold showInt; split
-      · intro hm; rcases List.mem_cons.mp hm with e | hm
-        · exact absurd e (by decide)
-        · obtain ⟨d, hd, e⟩ := showNat_digits _ _ hm; revert e; interval_cases d <;> decide
-      · intro hm; obtain ⟨d, hd, e⟩ := showNat_digits _ _ hm; revert e; interval_cases d <;> decide⟩
-    have hdec : ∀ d : Dec, DecOk d → TokOk (showDec d) := fun d hd => ⟨showDec_clean d hd, by
-      unfold showDec
-      simp only [List.mem_append, List.mem_map, not_or]
-      refine ⟨⟨⟨by split <;> simp, ?_⟩, by simp⟩, ?_⟩
-      · intro hm; obtain ⟨k, hk, e⟩ := showNat_digits _ _ hm; revert e; interval_cases k <;> decide
-      · rintro ⟨x, hx, e⟩; have := hd x hx; revert e; interval_cases x <;> decide⟩
-    have h1 : TokOk ['1'] := by decide
-    simp only [List.mem_range] at hj
-    interval_cases j <;> simp only [cifRow, List.getD_eq_getElem?_getD, List.getElem?_cons_zero,
-      List.getElem?_cons_succ, Option.getD_some] <;>
-      first | exact w.record | exact w.name | exact w.alt | exact w.resName | exact w.ins | exact w.elem
-            | exact w.charge | exact hch | exact hint _ | exact hdec _ w.x | exact hdec _ w.y
-            | exact hdec _ w.z | exact hdec _ w.occ | exact hdec _ w.b | exact h1
+  have hv := cifColumns_tokOk as h
   have rows : ∀ line ∈ loopRows ((cifColumns as).map (·.2)),
       ∃ i, i < as.length ∧ splitLine (removeDq line) = (cifRow (as.getD i default)).map tok := by
     intro line hl
@@ -669,6 +682,389 @@ theorem cif_roundtrip_partial (as : List Atom) (h : ∀ a ∈ as, WfCif a) :
   intro line hl
   obtain ⟨i, _, e⟩ := rows line hl
   rw [e]; simp [cifRow, cifNames]
+
+/-! ## mmCIF: the whole file -/
+
+/-- atoms `_write_mmcif` accepts and whose rows survive the *file* syntax: the values of `WfCif`, a
+non-empty chain identifier (`chain_identifier[index][0]`), and a record type — the first value of every
+row — that does not make the line look like a comment (`#`), a text field (`;`), a header (`_`) or a
+keyword (`data_`, `loop_`).  `ATOM` and `HETATM` qualify. -/
+structure WfCifFile (a : Atom) : Prop extends WfCif a where
+  chainNe : a.chain ≠ []
+  start : lineStartOk a.record = true
+
+theorem cifColumns_loopOk (as : List Atom) (hne : as ≠ []) (h : ∀ a ∈ as, WfCifFile a) :
+    LoopOk (cifColumns as) as.length := by
+  have hcols : (cifColumns as).map (·.2) = (List.range 21).map (fun j => nthCol (as.map cifRow) j) := by
+    unfold cifColumns; rw [List.map_map]; rfl
+  refine ⟨List.length_pos_iff.mpr hne, by simp [cifColumns, cifNames], ?_, ?_, ?_, ?_, ?_⟩
+  · intro kv hkv
+    simp only [cifColumns, List.mem_map, List.mem_range] at hkv
+    obtain ⟨j, hj, rfl⟩ := hkv
+    have : cifNames.length = 21 := rfl
+    rw [this] at hj
+    show NameOk (cifNames.getD j "").toList
+    interval_cases j <;> decide
+  · have : (cifColumns as).map (·.1) = cifNames.map String.toList := by
+      unfold cifColumns; rw [List.map_map]; rfl
+    rw [this]; decide
+  · intro kv hkv
+    simp only [cifColumns, List.mem_map, List.mem_range] at hkv
+    obtain ⟨j, _, rfl⟩ := hkv
+    simp [nthCol]
+  · intro kv hkv v hv
+    exact cifColumns_tokOk as (fun a ha => (h a ha).toWfCif) kv.2 (List.mem_map.mpr ⟨kv, hkv, rfl⟩) v hv
+  · intro v hv
+    have : ((cifColumns as).headD default).2 = as.map (·.record) := by
+      simp [cifColumns, cifNames, List.range_succ_eq_map, nthCol, cifRow]
+    rw [this] at hv
+    obtain ⟨a, ha, rfl⟩ := List.mem_map.mp hv
+    exact (h a ha).start
+
+/-- **the file-level reader on any written loop** (the general statement behind `cif_roundtrip` and the
+re-use theorems).  For every loop table `t` with at least one column and `n ≥ 1` complete rows, distinct
+header-safe column names, values without white space or double quote (empty allowed) and first-column
+values that do not start like file syntax (`LoopOk t n`): `Parser.__init__`'s line filter,
+`_consolidate_strings`, `_split_in_blocks` and `_loop_block_to_dict` applied to the text `_write_mmcif`
+prints for `t` return `t` itself - the columns under their names and in their order, the rows in their
+order, one token per value, the empty value as ".". -/
+theorem parse_written_loop (t : Table) (n : Nat) (h : LoopOk t n) :
+    parseCif (writeLoop "atom_site".toList t) = some (t.map (fun kv => (kv.1, kv.2.map tok))) :=
+  parseCif_writeLoop t n h
+
+example : LoopOk [("group".toList, ["ATOM".toList, "O5'".toList]), ("val".toList, [[], "-1.5".toList])] 2 := by
+  constructor <;> decide
+
+/-- what the file-level reader returns for a written structure is the table of `loadCifTable_readBack` -/
+theorem parseCif_writeCif (as : List Atom) (hne : as ≠ []) (h : ∀ a ∈ as, WfCifFile a) :
+    (writeCif none as).bind parseCif = some (readBack as) := by
+  have hw : as.all pdbWritable = true := by
+    rw [List.all_eq_true]; intro a ha
+    have := (h a ha).chainNe
+    unfold pdbWritable
+    cases hc : a.chain with
+    | nil => exact absurd hc this
+    | cons _ _ => rfl
+  unfold writeCif
+  simp only [hw, Bool.not_true, Bool.false_eq_true, if_false, Option.bind_some]
+  exact parseCif_writeLoop (cifColumns as) as.length (cifColumns_loopOk as hne h)
+
+/-- **mmCIF round trip, whole file.**  For every non-empty list of atoms (any length, any order) whose
+text fields contain no white space and no double quote, with a non-empty chain identifier and a record
+type that does not start like file syntax: writing the structure with `_write_mmcif` and reading the
+text with `MMCIFParser` (line filter, `_consolidate_strings`, `_split_in_blocks`, `_loop_block_to_dict`,
+`_split_line`) and `_load_mmcif` returns the same atoms in the same order - serial, residue number,
+coordinates, occupancy and B-factor identical, text fields identical except that an empty field reads as
+".", and the constant "1" as segment identifier. -/
+theorem cif_roundtrip (as : List Atom) (hne : as ≠ []) (h : ∀ a ∈ as, WfCifFile a) :
+    (writeCif none as).bind loadCif = some (as.map normCif) := by
+  have hp := parseCif_writeCif as hne h
+  cases hw : writeCif none as with
+  | none => rw [hw] at hp; cases hp
+  | some text =>
+    rw [hw, Option.bind_some] at hp
+    simp only [Option.bind_some, loadCif, hp, Option.bind_eq_bind]
+    exact loadCifTable_readBack as (fun a ha => (h a ha).toWfCif)
+
+/-- the guard `as ≠ []` is necessary: a structure without atoms is written (header lines only), but the
+reader then takes the header lines for the body, finds no column and `_load_mmcif` raises (`KeyError`) -/
+theorem cif_roundtrip_empty : (writeCif none []).isSome = true ∧ (writeCif none []).bind loadCif = none := by
+  constructor <;> decide +kernel
+
+/-! ## mmCIF: a structure read from mmCIF is written from the records of its original file -/
+
+/-- **when `_write_mmcif` re-uses the original records, and which.**  `orig` is the `atom_site` table of
+the file named in `metadata["filepath"]` (rows complete), `oids` its `id` column.  The writer re-uses
+exactly when (1) the ids of the file are pairwise distinct, (2) `atom_serial_number - 1` is a valid
+(Python, possibly negative) index into the file for every atom, and (3) the id found in that row is the
+atom's serial number; it then prints those rows, in the order of the atoms, with the three coordinate
+columns replaced by the structure's coordinates.  In every other case it prints the freshly built
+columns (`writeCif_fallback`). -/
+theorem reuse_when (orig : Table) (n : Nat) (hr : Rect orig n) (oids : List Str)
+    (hid : lookup orig "id".toList = some oids) (atoms : List Atom) (data : Table) :
+    reuseOriginal orig atoms data =
+      if ¬ oids.Nodup then none else
+      match (atoms.map (fun a => a.serial - 1)).mapM (resolve n) with
+      | none => none
+      | some js =>
+        if js.map (fun j => oids.getD j []) ≠ atoms.map (fun a => showInt a.serial) then none
+        else some (reuseTable orig js data) :=
+  reuseOriginal_rect orig n hr oids hid atoms data
+
+theorem writeCif_fallback (orig : Table) (as : List Atom) (h : reuseOriginal orig as (cifColumns as) = none) :
+    writeCif (some orig) as = writeCif none as := by
+  unfold writeCif; simp only [h, Option.getD_none]
+
+/-- what a successful re-use consists of -/
+theorem reuse_some {orig : Table} {n : Nat} (hr : Rect orig n) {oids : List Str}
+    (hid : lookup orig "id".toList = some oids) {atoms : List Atom} {data t : Table}
+    (h : reuseOriginal orig atoms data = some t) :
+    oids.Nodup ∧ ∃ js, js.length = atoms.length ∧ (∀ j ∈ js, j < n) ∧
+      js.map (fun j => oids.getD j []) = atoms.map (fun a => showInt a.serial) ∧ t = reuseTable orig js data := by
+  rw [reuseOriginal_rect orig n hr oids hid] at h
+  by_cases hnd : oids.Nodup
+  · simp only [hnd, not_true_eq_false, if_false] at h
+    cases hjs : (atoms.map (fun a => a.serial - 1)).mapM (resolve n) with
+    | none => rw [hjs] at h; cases h
+    | some js =>
+      rw [hjs] at h
+      simp only at h
+      split at h
+      · cases h
+      · rename_i hids
+        simp only [ne_eq, not_not] at hids
+        refine ⟨hnd, js, ?_, ?_, hids, (Option.some.inj h).symm⟩
+        · have := (mapM_some_getD hjs 0 0).1; simpa using this
+        · intro j hj
+          obtain ⟨i, _, e⟩ := mapM_some_mem hjs j hj
+          exact resolve_lt e
+  · simp only [hnd, not_false_eq_true, if_true] at h; cases h
+
+/-- **the re-used record of an atom is *the* record of the file with the atom's id**: row `j` printed for
+atom `a` carries the id `str(a.serial)`, and no other row of the file does -/
+theorem reuse_row_unique {orig : Table} {n : Nat} (hr : Rect orig n) {oids : List Str}
+    (hid : lookup orig "id".toList = some oids) {atoms : List Atom} {data t : Table}
+    (h : reuseOriginal orig atoms data = some t) :
+    ∃ js, t = reuseTable orig js data ∧ js.length = atoms.length ∧ ∀ p ∈ js.zip atoms,
+      p.1 < n ∧ oids.getD p.1 [] = showInt p.2.serial ∧
+      ∀ i, i < n → oids.getD i [] = showInt p.2.serial → i = p.1 := by
+  obtain ⟨hnd, js, hl, hlt, hids, ht⟩ := reuse_some hr hid h
+  have hon : oids.length = n := lookup_length hr hid
+  refine ⟨js, ht, hl, ?_⟩
+  intro p hp
+  have hp1 := hlt _ (List.of_mem_zip hp).1
+  have e := map_eq_zip hids p hp
+  refine ⟨hp1, e, ?_⟩
+  intro i hi hi2
+  have h1 : oids[i]'(by omega) = oids[p.1]'(by omega) := by
+    have a1 : oids.getD i [] = oids[i]'(by omega) := by simp [List.getD_eq_getElem?_getD, hon, hi]
+    have a2 : oids.getD p.1 [] = oids[p.1]'(by omega) := by simp [List.getD_eq_getElem?_getD, hon, hp1]
+    rw [← a1, ← a2, hi2, e]
+  exact (List.Nodup.getElem_inj_iff hnd).mp h1
+
+/-- **typing commutes with selecting rows** (the general statement behind `cif_reuse_roundtrip`): if the rows
+`raws` of a file type to the atoms `os`, any non-empty selection of rows (any order, repetitions), each with
+new coordinates written into it, types to the corresponding atoms of `os` at the new coordinates - provided
+the occupancy and B columns are uniform (all numbers or none); with a mixed column `_load_mmcif`'s
+whole-column fall-back makes the typing of a row depend on which other rows are present (known finding). -/
+theorem typing_commutes_with_selection (raws : List Raw) (os : List Atom) (h : convert raws = some os)
+    (ho : Uniform (raws.map (·.occ))) (hb : Uniform (raws.map (·.b)))
+    (sel : List (Nat × Atom)) (hne : sel ≠ []) (hlt : ∀ p ∈ sel, p.1 < raws.length)
+    (hdec : ∀ p ∈ sel, DecOk p.2.x ∧ DecOk p.2.y ∧ DecOk p.2.z) :
+    convert (sel.map (movedRaw raws)) = some (sel.map (fun p => withCoords (os.getD p.1 default) p.2)) :=
+  convert_sel raws os h ho hb sel hne hlt hdec
+
+/-- the uniformity hypothesis cannot be dropped: with a mixed occupancy column the file types every
+occupancy as 0, the selection of its numeric row alone types it as the number -/
+theorem mixed_float_column_witness :
+    floatColumn ["1.00".toList, "?".toList] = [Dec.zero, Dec.zero] ∧
+    floatColumn ["1.00".toList] = [⟨false, 1, [0, 0]⟩] ∧ ¬ Uniform ["1.00".toList, "?".toList] := by
+  refine ⟨by decide, by decide, by decide⟩
+
+/-- **re-use returns exactly the atoms of the structure.**  Let `orig` be the `atom_site` table of the
+original file - a loop that survives the file syntax (`LoopOk`: complete rows, header-safe distinct
+column names, values without white space / double quote), no empty value (what the parser produces) -
+and `os` the atoms `_load_mmcif` types from it, their serial numbers pairwise distinct, the occupancy and
+B columns uniform (all numbers or none: the reader's whole-column fall-back is not in play).  Let `as` be
+any non-empty list of atoms of that file - any subset, order, repetition - with coordinates changed at
+will.  If the writer re-uses the original records (`reuse_when` says when), reading the written text
+returns exactly `as`: every field of every atom, in order. -/
+theorem cif_reuse_roundtrip (orig : Table) (n : Nat) (os as : List Atom)
+    (hfile : LoopOk orig n) (hnev : ∀ kv ∈ orig, ∀ v ∈ kv.2, v ≠ [])
+    (hload : loadCifTable orig = some os) (hser : (os.map (·.serial)).Nodup)
+    (ho : Uniform (colOr orig n "occupancy")) (hb : Uniform (colOr orig n "B_iso_or_equiv"))
+    (hne : as ≠ []) (hsrc : ∀ a ∈ as, ∃ o ∈ os, a = withCoords o a)
+    (hdec : ∀ a ∈ as, DecOk a.x ∧ DecOk a.y ∧ DecOk a.z) (hchain : ∀ a ∈ as, a.chain ≠ [])
+    (hreuse : (reuseOriginal orig as (cifColumns as)).isSome = true) :
+    (writeCif (some orig) as).bind loadCif = some as := by
+  have hr : Rect orig n := hfile.len
+  obtain ⟨xs, ys, zs, hx, hy, hz⟩ := loadCifTable_some_xyz hload
+  obtain ⟨t, ht⟩ := Option.isSome_iff_exists.mp hreuse
+  obtain ⟨oids, hid⟩ : ∃ oids, lookup orig "id".toList = some oids := by
+    cases hid : lookup orig "id".toList with
+    | none => unfold reuseOriginal at ht; rw [hid] at ht; cases ht
+    | some oids => exact ⟨oids, rfl⟩
+  obtain ⟨js, rfl, hl, hrows⟩ := reuse_row_unique hr hid ht
+  have hlt : ∀ j ∈ js, j < n := by
+    intro j hj
+    obtain ⟨i, hi, e⟩ := List.mem_iff_getElem.mp hj
+    have hz : (j, as[i]'(by omega)) ∈ js.zip as := by
+      rw [← e]
+      exact List.mem_iff_getElem.mpr ⟨i, by simp [List.length_zip, hl, hi]; omega, by simp⟩
+    exact (hrows _ hz).1
+  -- the text
+  have hw : as.all pdbWritable = true := by
+    rw [List.all_eq_true]; intro a ha
+    have := hchain a ha
+    unfold pdbWritable
+    cases hc : a.chain with
+    | nil => exact absurd hc this
+    | cons _ _ => rfl
+  obtain ⟨hok, hnev'⟩ := loopOk_reuse orig n hfile hnev xs ys zs hx hy hz js as hl hne hlt hdec
+  have htext : writeCif (some orig) as = some (writeLoop atomSite (reuseTable orig js (cifColumns as))) := by
+    unfold writeCif
+    simp only [hw, Bool.not_true, Bool.false_eq_true, if_false, ht, Option.getD_some]
+  rw [htext, Option.bind_some]
+  unfold loadCif
+  rw [parseCif_writeLoop _ _ hok, map_tok_id _ hnev']
+  simp only [Option.bind_eq_bind, Option.bind_some]
+  rw [loadCifTable_reuse orig n hfile.rows hr oids xs ys zs hid hx hy hz os hload ho hb js as hl hne hlt hdec]
+  -- every selected atom of the file is the atom of the structure it is printed for
+  have hconv : convert (rawsOf orig n) = some os := by
+    rw [← loadCifTable_rawsOf orig n hfile.rows hr oids xs ys zs hid hx hy hz]; exact hload
+  obtain ⟨hosl, pw⟩ := convert_some_pointwise hconv
+  rw [rawsOf_length orig n hr] at hosl pw
+  congr 1
+  have eas : as = (js.zip as).map (fun p => p.2) := by
+    have := map_zip_right js as hl id
+    simpa using this
+  conv_rhs => rw [eas]
+  apply List.map_congr_left
+  intro p hp
+  obtain ⟨hp1, hpid, -⟩ := hrows p hp
+  -- the serial number typed from row `p.1`
+  have hs : (os.getD p.1 default).serial = p.2.serial := by
+    have h1 := (pw p.1 hp1).1
+    rw [rawsOf_getD orig n hr p.1 hp1] at h1
+    have h2 : (rawRow orig n p.1).serial = oids.getD p.1 [] := by
+      simp only [rawRow, colOr, hid]
+    rw [h2, hpid, intCell_showInt] at h1
+    exact (Option.some.inj h1).symm
+  obtain ⟨o, ho', ea⟩ := hsrc p.2 (List.of_mem_zip hp).2
+  obtain ⟨i, hi, rfl⟩ := List.mem_iff_getElem.mp ho'
+  have hsi : (os[i]).serial = p.2.serial := by
+    have := congrArg Atom.serial ea
+    rw [withCoords_serial] at this
+    exact this.symm
+  have hij : i = p.1 := by
+    have hj : p.1 < os.length := by omega
+    have e1 : (os.map (·.serial))[i]'(by simpa using hi) = (os.map (·.serial))[p.1]'(by simpa using hj) := by
+      simp only [List.getElem_map]
+      have : os.getD p.1 default = os[p.1] := by simp [List.getD_eq_getElem?_getD, hj]
+      rw [hsi, ← hs, this]
+    exact (List.Nodup.getElem_inj_iff hser).mp e1
+  have : os.getD p.1 default = os[i] := by
+    subst hij; simp [List.getD_eq_getElem?_getD, hi]
+  rw [this]
+  exact ea.symm
+
+/-! ## mmCIF → mmCIF: a structure read from a file pyTME wrote, written again -/
+
+theorem loopOk_map_tok {t : Table} {n : Nat} (h : LoopOk t n) :
+    LoopOk (t.map (fun kv => (kv.1, kv.2.map tok))) n ∧
+    ∀ kv ∈ t.map (fun kv => (kv.1, kv.2.map tok)), ∀ v ∈ kv.2, v ≠ [] := by
+  refine ⟨⟨h.rows, by simpa using h.cols, ?_, ?_, ?_, ?_, ?_⟩, ?_⟩
+  · intro kv' hkv'; obtain ⟨kv, hkv, rfl⟩ := List.mem_map.mp hkv'; exact h.names kv hkv
+  · rw [List.map_map]; exact h.nodup
+  · intro kv' hkv'; obtain ⟨kv, hkv, rfl⟩ := List.mem_map.mp hkv'; simpa using h.len kv hkv
+  · intro kv' hkv' v hv
+    obtain ⟨kv, hkv, rfl⟩ := List.mem_map.mp hkv'
+    obtain ⟨w, hw, rfl⟩ := List.mem_map.mp hv
+    exact tok_ok (h.vals kv hkv w hw)
+  · cases ht : t with
+    | nil => exact absurd ht h.cols
+    | cons kv0 rest =>
+      have hs := h.start
+      rw [ht] at hs
+      simp only [List.map_cons, List.headD_cons] at hs ⊢
+      intro v hv
+      obtain ⟨w, hw, rfl⟩ := List.mem_map.mp hv
+      exact tok_lineStartOk (hs w hw)
+  · intro kv' hkv' v hv
+    obtain ⟨kv, hkv, rfl⟩ := List.mem_map.mp hkv'
+    obtain ⟨w, hw, rfl⟩ := List.mem_map.mp hv
+    exact tok_ne_nil w
+
+theorem tok_tok (v : Str) : tok (tok v) = tok v := by
+  unfold tok; cases v <;> rfl
+
+theorem normCif_withCoords_normCif (a b : Atom) :
+    normCif (withCoords (normCif a) b) = withCoords (normCif a) b := by
+  simp only [normCif, withCoords, tok_tok]
+
+theorem wfCifFile_moved {a b : Atom} (h : WfCifFile a) (hd : DecOk b.x ∧ DecOk b.y ∧ DecOk b.z) :
+    WfCifFile (withCoords (normCif a) b) := by
+  have hch : tok a.chain = a.chain := by
+    unfold tok; cases hc : a.chain with
+    | nil => exact absurd hc h.chainNe
+    | cons _ _ => rfl
+  exact { record := tok_ok h.record, name := tok_ok h.name, alt := tok_ok h.alt, resName := tok_ok h.resName,
+          chain := by simp only [withCoords, normCif, hch]; exact h.chain
+          ins := tok_ok h.ins, elem := tok_ok h.elem, charge := tok_ok h.charge,
+          x := hd.1, y := hd.2.1, z := hd.2.2, occ := h.occ, b := h.b,
+          chainNe := by simp only [withCoords, normCif, hch]; exact h.chainNe
+          start := tok_lineStartOk h.start }
+
+/-- **mmCIF → mmCIF.**  Write a structure (`as`, well-formed, non-empty) as mmCIF, read the file, keep any
+non-empty selection `r` of the atoms read (any subset, order, repetition), move them at will, and write
+`r` as mmCIF again with the first file still in place.  Whether `_write_mmcif` re-uses the records of the
+first file (ids unique and addressed by `serial - 1`) or falls back to freshly built columns, reading the
+second file returns exactly `r`, every field of every atom, in order. -/
+theorem cif_cif_roundtrip (as r : List Atom) (h : ∀ a ∈ as, WfCifFile a) (hr : r ≠ [])
+    (hsrc : ∀ b ∈ r, ∃ a ∈ as, b = withCoords (normCif a) b) (hdec : ∀ b ∈ r, DecOk b.x ∧ DecOk b.y ∧ DecOk b.z) :
+    (writeCif (some (readBack as)) r).bind loadCif = some r := by
+  have hne : as ≠ [] := by
+    intro e; subst e
+    cases r with
+    | nil => exact hr rfl
+    | cons b _ => obtain ⟨a, ha, _⟩ := hsrc b (List.mem_cons_self ..); cases ha
+  have hwf : ∀ b ∈ r, WfCifFile b := by
+    intro b hb
+    obtain ⟨a, ha, e⟩ := hsrc b hb
+    rw [e]; exact wfCifFile_moved (h a ha) (hdec b hb)
+  have hnorm : r.map normCif = r := by
+    have : ∀ b ∈ r, normCif b = id b := by
+      intro b hb
+      obtain ⟨a, _, e⟩ := hsrc b hb
+      rw [e]; exact normCif_withCoords_normCif a b
+    rw [List.map_congr_left this, List.map_id]
+  cases hre : reuseOriginal (readBack as) r (cifColumns r) with
+  | none =>
+    rw [writeCif_fallback _ _ hre, cif_roundtrip r hr hwf, hnorm]
+  | some t =>
+    obtain ⟨hok, hnev⟩ := loopOk_map_tok (cifColumns_loopOk as hne h)
+    have hwfc : ∀ a ∈ as, WfCif a := fun a ha => (h a ha).toWfCif
+    have hid : lookup (readBack as) "id".toList = some (as.map (fun a => showInt a.serial)) := by
+      have k1 : lookup (readBack as) "id".toList = _ := lookup_readBack as 1 (by decide)
+      simp only [cifRow, List.getD_eq_getElem?_getD, List.getElem?_cons_succ, List.getElem?_cons_zero,
+        Option.getD_some, tok_showInt] at k1
+      exact k1
+    obtain ⟨hnd, -⟩ := reuse_some hok.len hid hre
+    have hser : ((as.map normCif).map (·.serial)).Nodup := by
+      rw [List.map_map]
+      have e : as.map (fun a => showInt a.serial) = (as.map ((·.serial) ∘ normCif)).map showInt := by
+        rw [List.map_map]; rfl
+      rw [e] at hnd
+      exact List.Nodup.of_map _ hnd
+    have hu : ∀ (k : String) (j : Nat) (f : Atom → Dec), (∀ a ∈ as, DecOk (f a)) →
+        lookup (readBack as) k.toList = some (as.map (fun a => tok (showDec (f a)))) →
+        Uniform (colOr (readBack as) as.length k) := by
+      intro k j f hf hl
+      left
+      unfold colOr
+      rw [hl]
+      intro v hv
+      obtain ⟨a, ha, rfl⟩ := List.mem_map.mp hv
+      rw [tok_showDec, strip_clean (showDec_clean _ (hf a ha)), parseDec_showDec _ (hf a ha)]; rfl
+    have ho : Uniform (colOr (readBack as) as.length "occupancy") := by
+      apply hu "occupancy" 13 (·.occ) (fun a ha => (h a ha).occ)
+      have k13 : lookup (readBack as) "occupancy".toList = _ := lookup_readBack as 13 (by decide)
+      simp only [cifRow, List.getD_eq_getElem?_getD, List.getElem?_cons_succ, List.getElem?_cons_zero,
+        Option.getD_some] at k13
+      exact k13
+    have hb : Uniform (colOr (readBack as) as.length "B_iso_or_equiv") := by
+      apply hu "B_iso_or_equiv" 14 (·.b) (fun a ha => (h a ha).b)
+      have k14 : lookup (readBack as) "B_iso_or_equiv".toList = _ := lookup_readBack as 14 (by decide)
+      simp only [cifRow, List.getD_eq_getElem?_getD, List.getElem?_cons_succ, List.getElem?_cons_zero,
+        Option.getD_some] at k14
+      exact k14
+    exact cif_reuse_roundtrip (readBack as) as.length (as.map normCif) r hok hnev
+      (loadCifTable_readBack as hwfc) hser ho hb hr
+      (by
+        intro b hb'
+        obtain ⟨a, ha, e⟩ := hsrc b hb'
+        exact ⟨normCif a, List.mem_map.mpr ⟨a, ha, rfl⟩, e⟩)
+      hdec (fun b hb' => (hwf b hb').chainNe) (by rw [hre]; rfl)
 
 /-! ## filters -/
 
@@ -710,10 +1106,88 @@ theorem normStr_tok (v : Str) : normStr (tok v) = normStr v := by
 theorem sameNamed_normCif (a : Atom) : sameNamed a (normCif a) := by
   simp only [sameNamed, normCif, normStr_tok, and_self]
 
+theorem forall₂_sameNamed_normCif (as : List Atom) : List.Forall₂ sameNamed as (as.map normCif) := by
+  induction as with
+  | nil => exact List.Forall₂.nil
+  | cons a rest ih => exact List.Forall₂.cons (sameNamed_normCif a) ih
+
+/-- no text field contains a double quote (the mmCIF reader deletes double quotes: known finding) -/
+def NoDq (a : Atom) : Prop :=
+  '"' ∉ a.name ∧ '"' ∉ a.alt ∧ '"' ∉ a.resName ∧ '"' ∉ a.chain ∧ '"' ∉ a.ins ∧ '"' ∉ a.elem ∧ '"' ∉ a.charge
+
+instance (a : Atom) : Decidable (NoDq a) := by unfold NoDq; infer_instance
+
+/-- an atom representable in the fixed PDB columns is, double quotes aside, one the mmCIF file syntax
+carries: `ATOM` / `HETATM` start a row safely, the chain identifier is one character -/
+theorem wfCifFile_of_wfPdb {a : Atom} (h : WfPdb a) (hq : NoDq a) : WfCifFile a := by
+  obtain ⟨q1, q2, q3, q4, q5, q6, q7⟩ := hq
+  have hrec : TokOk a.record ∧ lineStartOk a.record = true := by
+    rcases h.record with e | e <;> rw [e] <;> decide
+  have hc1 := h.chain.2
+  exact { record := hrec.1, name := ⟨h.name.1, q1⟩, alt := ⟨h.alt.1, q2⟩, resName := ⟨h.resName.1, q3⟩,
+          chain := ⟨⟨h.chain.1, q4⟩, by omega⟩, ins := ⟨h.ins.1, q5⟩, elem := ⟨h.elem.1, q6⟩,
+          charge := ⟨h.charge.1, q7⟩, x := h.x.1, y := h.y.1, z := h.z.1, occ := h.occ.1, b := h.b.1,
+          chainNe := by intro e; rw [e] at hc1; simp at hc1
+          start := hrec.2 }
+
+/-- **cross-format, file to file.**  The PDB text and the mmCIF text `to_file` writes for the same atoms
+(representable in the PDB columns, no double quote) are read back by `from_file` - PDB reader resp.
+the whole mmCIF reader - as the same atoms in the same order: record type, serial, names, chain, residue
+number, insertion code, alt-loc, element, charge (no-value forms identified), coordinates, occupancy and
+B-factor.  (`cross_format` below is the corollary for the token table.) -/
+theorem cross_format_files (as : List Atom) (hne : as ≠ []) (hp : ∀ a ∈ as, WfPdb a) (hq : ∀ a ∈ as, NoDq a) :
+    ∃ viaPdb viaCif, (writePdb as).bind loadPdb = some viaPdb ∧ (writeCif none as).bind loadCif = some viaCif ∧
+      List.Forall₂ sameNamed viaPdb viaCif :=
+  ⟨as, as.map normCif, pdb_roundtrip as hp,
+    cif_roundtrip as hne (fun a ha => wfCifFile_of_wfPdb (hp a ha) (hq a ha)), forall₂_sameNamed_normCif as⟩
+
+theorem tok_length_le (v : Str) (w : Nat) (hw : 1 ≤ w) (h : v.length ≤ w) : (tok v).length ≤ w := by
+  unfold tok; cases v with
+  | nil => simpa using hw
+  | cons _ _ => exact h
+
+/-- what the mmCIF reader returns for an atom representable in the PDB columns is representable again -/
+theorem wfPdb_normCif {a : Atom} (h : WfPdb a) (hq : NoDq a) : WfPdb (normCif a) := by
+  obtain ⟨q1, q2, q3, q4, q5, q6, q7⟩ := hq
+  have t : ∀ {v : Str}, Clean v → '"' ∉ v → Clean (tok v) := fun hc hd => (tok_ok ⟨hc, hd⟩).1
+  have hch : tok a.chain = a.chain := by
+    unfold tok; cases hc : a.chain with
+    | nil => have := h.chain.2; rw [hc] at this; simp at this
+    | cons _ _ => rfl
+  have hrec : tok a.record = a.record := by rcases h.record with e | e <;> rw [e] <;> rfl
+  exact { record := by simp only [normCif, hrec]; exact h.record
+          serial := h.serial
+          name := ⟨t h.name.1 q1, tok_length_le _ 4 (by decide) h.name.2⟩
+          alt := ⟨t h.alt.1 q2, tok_length_le _ 1 (by decide) h.alt.2⟩
+          resName := ⟨t h.resName.1 q3, tok_length_le _ 3 (by decide) h.resName.2⟩
+          chain := by simp only [normCif, hch]; exact h.chain
+          resSeq := h.resSeq
+          ins := ⟨t h.ins.1 q5, tok_length_le _ 1 (by decide) h.ins.2⟩
+          x := h.x, y := h.y, z := h.z, occ := h.occ, b := h.b
+          seg := by simp only [normCif]; decide
+          elem := ⟨t h.elem.1 q6, tok_length_le _ 2 (by decide) h.elem.2⟩
+          charge := ⟨t h.charge.1 q7, tok_length_le _ 2 (by decide) h.charge.2⟩ }
+
+/-- **structures read from the other format.**  A structure read from a PDB file and written as mmCIF, and a
+structure read from an mmCIF file and written as PDB, read back as the same atoms in the same order, every
+named field preserved (no-value forms identified): both chains return `as.map normCif`. -/
+theorem roundtrip_chains (as : List Atom) (hne : as ≠ []) (hp : ∀ a ∈ as, WfPdb a) (hq : ∀ a ∈ as, NoDq a) :
+    ((writePdb as).bind loadPdb).bind (fun r => (writeCif none r).bind loadCif) = some (as.map normCif) ∧
+    ((writeCif none as).bind loadCif).bind (fun r => (writePdb r).bind loadPdb) = some (as.map normCif) ∧
+    List.Forall₂ sameNamed as (as.map normCif) := by
+  have hc := cif_roundtrip as hne (fun a ha => wfCifFile_of_wfPdb (hp a ha) (hq a ha))
+  refine ⟨?_, ?_, forall₂_sameNamed_normCif as⟩
+  · rw [pdb_roundtrip as hp, Option.bind_some]; exact hc
+  · rw [hc, Option.bind_some]
+    apply pdb_roundtrip
+    intro b hb
+    obtain ⟨a, ha, rfl⟩ := List.mem_map.mp hb
+    exact wfPdb_normCif (hp a ha) (hq a ha)
+
 /-- **cross-format.**  The same atoms written as PDB and as mmCIF read back, atom by atom and in
 the same order, with the same record type, serial, names, chain, residue number, insertion code,
 alt-loc, element, charge (no-value forms identified), coordinates, occupancy and B-factor
-(mmCIF side: from the table of `cif_roundtrip_partial`). -/
+(mmCIF side: from the token table; corollary of the file-to-file statement `cross_format_files`). -/
 theorem cross_format (as : List Atom) (hp : ∀ a ∈ as, WfPdb a) (hc : ∀ a ∈ as, WfCif a) :
     ∃ viaPdb viaCif, (writePdb as).bind loadPdb = some viaPdb ∧ loadCifTable (readBack as) = some viaCif ∧
       List.Forall₂ sameNamed viaPdb viaCif := by
@@ -749,5 +1223,89 @@ example := cross_format [sampleAtom] (by intro a ha; simp at ha; subst ha; exact
 example : loopRows ((cifColumns [sampleAtom]).map (·.2)) =
     ["HETATM 99999 O \"O5'\" . DA B 1 -12 . -15.127 -0.000 9999.999 1.00 159.48 . -12 DA B \"O5'\" 1 ".toList] := by
   decide
+
+/-! ### the whole mmCIF file, both formats, structures read from the other format -/
+
+theorem sample_wfCifFile : WfCifFile sampleAtom :=
+  { toWfCif := sample_wfCif, chainNe := by decide, start := by decide }
+
+def sampleAtom2 : Atom :=
+  { sampleAtom with record := "ATOM".toList, serial := 2, name := "CA".toList, alt := "A".toList, resSeq := 7,
+                    x := ⟨false, 1, [5, 0, 0]⟩, elem := "C".toList, charge := "1-".toList }
+
+theorem sample2_wfPdb : WfPdb sampleAtom2 := by constructor <;> decide
+theorem sample2_wfCifFile : WfCifFile sampleAtom2 :=
+  { toWfCif := by constructor <;> decide, chainNe := by decide, start := by decide }
+
+example : (writeCif none [sampleAtom, sampleAtom2]).bind loadCif = some [normCif sampleAtom, normCif sampleAtom2] :=
+  cif_roundtrip _ (by simp) (by
+    intro a ha; simp at ha; rcases ha with rfl | rfl
+    · exact sample_wfCifFile
+    · exact sample2_wfCifFile)
+example : NoDq sampleAtom ∧ NoDq sampleAtom2 := by decide
+example := cross_format_files [sampleAtom, sampleAtom2] (by simp)
+  (by intro a ha; simp at ha; rcases ha with rfl | rfl; exacts [sample_wfPdb, sample2_wfPdb])
+  (by intro a ha; simp at ha; rcases ha with rfl | rfl <;> decide)
+example := roundtrip_chains [sampleAtom, sampleAtom2] (by simp)
+  (by intro a ha; simp at ha; rcases ha with rfl | rfl; exacts [sample_wfPdb, sample2_wfPdb])
+  (by intro a ha; simp at ha; rcases ha with rfl | rfl <;> decide)
+
+/-! ### re-use of the original file: a file of another program (columns in its own order, an unknown
+column, a two-character chain, no occupancy / B column), of which the structure keeps the second atom
+only, moved -/
+
+def sampleOrig : Table :=
+  [("id".toList, ["1".toList, "2".toList]),
+   ("group_PDB".toList, ["ATOM".toList, "HETATM".toList]),
+   ("label_atom_id".toList, ["CA".toList, "O5'".toList]),
+   ("label_asym_id".toList, ["A".toList, "BB".toList]),
+   ("label_seq_id".toList, ["7".toList, ".".toList]),
+   ("Cartn_x".toList, ["1.500".toList, "-15.127".toList]),
+   ("Cartn_y".toList, ["0.000".toList, "2.5".toList]),
+   ("Cartn_z".toList, ["3.250".toList, "+4".toList]),
+   ("pdbx_x_esd".toList, ["?".toList, "0.1".toList])]
+
+def sampleOs : List Atom := (convert ((List.range 2).map (rawRow sampleOrig 2))).getD []
+def sampleKept : List Atom :=
+  [{ sampleOs.getD 1 default with x := ⟨false, 7, [1, 2, 5]⟩, z := ⟨true, 0, [5, 0, 0]⟩ }]
+
+theorem sampleOrig_loopOk : LoopOk sampleOrig 2 := by constructor <;> decide
+theorem sampleOrig_load : loadCifTable sampleOrig = some sampleOs := by
+  rw [loadCifTable_rawsOf sampleOrig 2 (by decide) (by decide) ["1".toList, "2".toList]
+    ["1.500".toList, "-15.127".toList] ["0.000".toList, "2.5".toList] ["3.250".toList, "+4".toList]
+    (by decide) (by decide) (by decide) (by decide), rawsOf_eq sampleOrig 2 (by decide)]
+  decide +kernel
+
+example : Rect sampleOrig 2 ∧ lookup sampleOrig "id".toList = some ["1".toList, "2".toList] := by
+  constructor <;> decide
+example : (sampleOs.getD 1 default).chain = "BB".toList ∧ (sampleOs.getD 1 default).resSeq = 0 ∧
+    (sampleOs.getD 1 default).occ = Dec.zero ∧ (sampleOs.getD 1 default).z = ⟨false, 4, []⟩ := by decide +kernel
+example : (writeCif (some sampleOrig) sampleKept).bind loadCif = some sampleKept :=
+  cif_reuse_roundtrip sampleOrig 2 sampleOs sampleKept sampleOrig_loopOk (by decide) sampleOrig_load
+    (by decide +kernel) (Or.inr (by decide)) (Or.inr (by decide)) (by decide) (by decide +kernel)
+    (by decide +kernel) (by decide +kernel) (by decide +kernel)
+example : ∃ t, reuseOriginal sampleOrig sampleKept (cifColumns sampleKept) = some t ∧
+    lookup t "label_asym_id".toList = some ["BB".toList] ∧ lookup t "Cartn_x".toList = some ["7.125".toList] :=
+  ⟨(reuseOriginal sampleOrig sampleKept (cifColumns sampleKept)).getD [], by decide +kernel, by decide +kernel,
+    by decide +kernel⟩
+
+/-! ### mmCIF → mmCIF: of the two atoms written, the second is kept, moved, and written again -/
+
+def sampleMoved : Atom := { normCif sampleAtom2 with y := ⟨true, 3, [0, 0, 1]⟩ }
+
+example : (writeCif (some (readBack [sampleAtom, sampleAtom2])) [sampleMoved]).bind loadCif = some [sampleMoved] :=
+  cif_cif_roundtrip [sampleAtom, sampleAtom2] [sampleMoved]
+    (by intro a ha; simp at ha; rcases ha with rfl | rfl; exacts [sample_wfCifFile, sample2_wfCifFile])
+    (by simp) (by intro b hb; simp at hb; subst hb; exact ⟨sampleAtom2, by simp, by decide⟩)
+    (by intro b hb; simp at hb; subst hb; decide)
+
+example : reuseOriginal sampleOrig [sampleAtom] (cifColumns [sampleAtom]) = none := by decide +kernel
+example : writeCif (some sampleOrig) [sampleAtom] = writeCif none [sampleAtom] :=
+  writeCif_fallback _ _ (by decide +kernel)
+example : WfPdb (normCif sampleAtom) ∧ WfCifFile sampleAtom :=
+  ⟨wfPdb_normCif sample_wfPdb (by decide), wfCifFile_of_wfPdb sample_wfPdb (by decide)⟩
+example : convert ((List.range 2).map (rawRow sampleOrig 2)) = some sampleOs ∧
+    Uniform (((List.range 2).map (rawRow sampleOrig 2)).map (·.occ)) := by
+  constructor <;> decide +kernel
 
 end Pm.C09
